@@ -221,7 +221,7 @@ class Program:
         if normalise:
             self._recognise_private_renames()
         if normalise:
-            from .inline import _logger_names, normalise_null_contexts, normalise_accumulate, normalise_isinstance_unions, normalise_comprehension_fusion, normalise_search_loops, normalise_try_lookups, normalise_display_loops, normalise_setdefault_statements, normalise_unused_enumerate, normalise_enumerated_dicts, normalise_get_locals, normalise_dims_copies, normalise_conditional_elements, normalise_local_generators, normalise_subset_quantifiers, normalise_next_or_raise, normalise_partials, normalise_getters, normalise_comprehension_negations, normalise_display_comprehensions, normalise_quantifier_polarity, normalise_expression_walrus, normalise_get_tests, normalise_starred_maps, normalise_self_aliases, normalise_for_else, normalise_numpy_idioms, normalise_self_conditional, normalise_walrus, normalise_match, normalise_dict_union, normalise_first_match, normalise_generator_functions, normalise_unzip_loops, normalise_accumulators, normalise_conditional_assignments, normalise_generator_arguments, normalise_ifexp, normalise_keys, normalise_suppress, strip_logging
+            from .inline import _logger_names, normalise_or_defaults, normalise_null_contexts, normalise_accumulate, normalise_isinstance_unions, normalise_comprehension_fusion, normalise_search_loops, normalise_try_lookups, normalise_display_loops, normalise_setdefault_statements, normalise_unused_enumerate, normalise_enumerated_dicts, normalise_get_locals, normalise_dims_copies, normalise_conditional_elements, normalise_local_generators, normalise_subset_quantifiers, normalise_next_or_raise, normalise_partials, normalise_getters, normalise_comprehension_negations, normalise_display_comprehensions, normalise_quantifier_polarity, normalise_expression_walrus, normalise_get_tests, normalise_starred_maps, normalise_self_aliases, normalise_for_else, normalise_numpy_idioms, normalise_self_conditional, normalise_walrus, normalise_match, normalise_dict_union, normalise_first_match, normalise_generator_functions, normalise_unzip_loops, normalise_accumulators, normalise_conditional_assignments, normalise_generator_arguments, normalise_ifexp, normalise_keys, normalise_suppress, strip_logging
             loggers = {m.name: _logger_names(m.tree, m.resolve) for m in self.modules.values()}
             for fi in self.functions.values():
                 if fi.parent is None:
@@ -255,6 +255,7 @@ class Program:
                     self._count('normalise_keys', normalise_keys(fi.node))
                     self._count('normalise_suppress', normalise_suppress(fi.node, fi.module.resolve))
                     self._count('normalise_null_contexts', normalise_null_contexts(fi.node, fi.module.resolve))
+                    self._count('normalise_or_defaults', normalise_or_defaults(fi.node))
                     self._count('normalise_generator_functions', normalise_generator_functions(fi.node))
                     self._count('normalise_unzip_loops', normalise_unzip_loops(fi.node))
                     self._count('normalise_dict_union', normalise_dict_union(fi.node))
@@ -268,7 +269,7 @@ class Program:
             from . import inline as _inline_mod
             _inline_mod.ENUM_CLASSES.clear()
             _inline_mod.ENUM_CLASSES.update(ci.name for ci in self.classes.values() if any(b.rsplit('.', 1)[-1] in ('Enum', 'IntEnum', 'StrEnum', 'Flag') for b in ci.bases))
-            from .inline import Inliner, load_reference, record_classes_of, normalise_record_reads, normalise_record_fields, normalise_record_objects, normalise_attribute_loops, normalise_class_constants, normalise_enum_values, normalise_local_tables, normalise_record_classes, normalise_compiled_patterns, normalise_literal_loops, normalise_module_constants, normalise_small_quantifiers
+            from .inline import Inliner, load_reference, normalise_optional_flags, record_classes_of, normalise_record_reads, normalise_record_fields, normalise_record_objects, normalise_attribute_loops, normalise_class_constants, normalise_enum_values, normalise_local_tables, normalise_record_classes, normalise_compiled_patterns, normalise_literal_loops, normalise_module_constants, normalise_small_quantifiers
             ref = load_reference()
             self._record_tables: dict[str, dict] = {}
             if ref is not None:
@@ -302,9 +303,11 @@ class Program:
                 for fi in self.functions.values():
                     if fi.parent is None:
                         self._count('normalise_record_fields', normalise_record_fields(fi.node, self._record_tables))
-            from .inline import normalise_unchanged_returns, normalise_comprehension_filters, normalise_conditional_returns, normalise_iteration, normalise_test_locals
+                        self._count('normalise_optional_flags', normalise_optional_flags(fi.node))
+            from .inline import normalise_unordered_consumers, normalise_unchanged_returns, normalise_comprehension_filters, normalise_conditional_returns, normalise_iteration, normalise_test_locals
             for fi in self.functions.values():
                 if fi.parent is None:
+                    self._count('normalise_unordered_consumers', normalise_unordered_consumers(fi.node))
                     self._count('normalise_iteration', normalise_iteration(fi.node))
                     self._count('normalise_comprehension_negations', normalise_comprehension_negations(fi.node))
                     self._count('normalise_comprehension_filters', normalise_comprehension_filters(fi.node))
